@@ -10,6 +10,7 @@ mkdir -p .work/bin evidence replays
 (cd harness && go build -o ../.work/bin/instr ./instr) || { echo "setup: instrumenter build failed" >&2; exit 1; }
 (cd harness && go test -c -tags verif -vet=off -o ../.work/bin/c19.test ./c19test) || echo "setup: c19 test binary build failed (C19 will retry)" >&2
 (cd harness && go build -race -tags verif -o ../.work/bin/verifcheck-race ./cmd/verifcheck) 2>/dev/null || echo "setup: -race build unavailable (C17 aux pass will be skipped)" >&2
+(cd harness && go test -c -race -tags verif -vet=off -o ../.work/bin/c19race.test ./c19test) 2>/dev/null || echo "setup: -race build of the C19 binary unavailable (aux pass will be skipped)" >&2
 # instrument + overlay build through the normal path (C20 is the cheapest overlay check)
 VERIF_OUT=$(pwd)/.work/setup-out ./run.sh C20 quick >/dev/null 2>&1 || echo "setup: overlay warm-up run did not pass (the check itself will report)" >&2
 rm -rf .work/setup-out
